@@ -262,6 +262,65 @@ def late_listing(item):
     return part
 
 
+def faulty_listing(item):
+    """one backend call of the listing fails: the client must learn that the listing failed - a listing that is
+    reported complete has every entry exactly once"""
+    via, k = item
+    part = report.Partial()
+    tree = {"dir": {"a": b"1", "b c": b"22", ".h": {}, "z": b""}}
+    spy = backends.SpyControl()
+    rig = Rig(tree=tree, spy=spy, epoch0=EPOCH)
+    w = rig.world
+    a = w.aioftp
+    out = {}
+
+    async def main():
+        c = a.Client(path_io_factory=a.MemoryPathIO)
+        await c.connect("127.0.0.1", 2121)
+        await c.login()
+        spy.count = 0
+        spy.fail_at = k
+        try:
+            out["names"] = sorted(str(p) for p, i in await c.list("/dir", raw_command=via))
+        except (a.StatusCodeError, a.PathIOError, ConnectionError) as exc:
+            out["error"] = repr(exc)[:120]
+        spy.fail_at = None
+        out["calls"] = spy.count
+        out["again"] = sorted(str(p) for p, i in await c.list("/dir", raw_command=via))
+        await c.quit()
+
+    try:
+        problems = []
+        try:
+            w.run(main())
+        except Hang:
+            problems.append({"kind": "hang", "via": via})
+        except Exception as exc:
+            problems.append({"kind": "exception", "via": via, "exc": repr(exc)[:300]})
+        want = sorted("/dir/" + n for n in tree["dir"])
+        if not problems:
+            if "names" in out and out["names"] != want:
+                problems.append({"kind": "listing-reported-complete-with-entries-missing", "via": via, "got": out["names"],
+                                 "want": want, "failed_call": spy.failed})
+            if out.get("again") != want:
+                problems.append({"kind": "listing-after-a-failed-one", "via": via, "got": out.get("again"), "want": want})
+        part.evaluations += 1
+        part.traces += 1
+        part.transitions += w.net.n_events
+        kk = report.fp(["faulty-listing", via, k, bool(spy.failed)])
+        part.states.add(kk)
+        if spy.failed:
+            part.nontrivial.add(kk)
+        part.outcomes[report.fp([via, "error" in out])] += 1
+        part.counters["faulty_listing_calls_" + via] = max(part.counters["faulty_listing_calls_" + via], out.get("calls", 0))
+        for p in problems[:1]:
+            part.violation({"kind": p["kind"], "via": via.lower(), "failed_op": spy.failed[0][1] if spy.failed else None},
+                           {"problem": p}, replay={"faulty": [via, k]})
+    finally:
+        rig.close()
+    return part
+
+
 def wire_items(tier):
     configs = []
     rot = 0
@@ -284,12 +343,15 @@ def run(tier, seed, t0):
         for i in range(0, len(ns), 3):
             items.append((zone, ns[i:i + 3], tier != "quick"))
     late = [("UTC", v, a) for v in ("MLSD", "LIST") for a in ("", ".", "sub", "..")]
-    parts = report.pmap(plane_work, items) + report.pmap(wire_case, wire_items(tier)) + report.pmap(late_listing, late)
+    faulty = [(via, k) for via in ("MLSD", "LIST") for k in range(1, 16)]
+    parts = report.pmap(plane_work, items) + report.pmap(wire_case, wire_items(tier)) + report.pmap(late_listing, late) \
+        + report.pmap(faulty_listing, faulty)
     part = report.merge_all(parts)
     set_tz("UTC")
     bounds = {"now_values": len(ns), "years": [years[0], years[-1]], "mtime_range": "now-400d .. now+3d",
               "dense_windows": "every minute within +-%s of now, now-half-year, New Year, Mar 1; stride 67 min elsewhere"
                                % ("2 d" if tier != "quick" else "6 h"),
+              "faulty_listing": "4 entries, MLSD and LIST, the k-th backend call of the listing fails, k=1..15",
               "zones": ZONES, "exempt": "|(now - mtime) - half year| < 1 day",
               "wire": {"names": NAMES, "sizes": SIZES, "mtimes": len(MTIMES), "via": ["MLSD", "raw LIST", "MLST",
                                                                                     "stat via MLSD", "stat via LIST"]}}
@@ -305,5 +367,32 @@ def run(tier, seed, t0):
 
 def replay(path):
     data = json.loads(open(path).read())
-    print(json.dumps(data["detail"], indent=1, default=repr))
-    return 1
+    rp = data.get("replay") or {}
+    if "faulty" in rp:
+        part = faulty_listing(tuple(rp["faulty"]))
+    elif "late" in rp:
+        part = late_listing(tuple(rp["late"]))
+    elif "wire" in rp:
+        zone, entries = rp["wire"]
+        set_tz(zone)
+        problems, nev = wire_scenario({n: tuple(v) for n, v in entries.items()})
+        print(json.dumps(problems, indent=1, default=repr))
+        return 1 if problems else 0
+    elif "plane" in rp:
+        zone, nt, m = rp["plane"]
+        set_tz(zone)
+        import aioftp
+        now = time.mktime(tuple(nt) + (0, 0, 0, -1))
+        s = aioftp.Server.build_list_mtime(m, now)
+        try:
+            got = aioftp.Client.parse_ls_date(s, now=datetime.datetime.fromtimestamp(now))
+        except Exception as exc:
+            got = "EXC " + repr(exc)
+        want = expected(m, now)
+        print(json.dumps({"ls": s, "got": got, "want": want}))
+        return 1 if got != want else 0
+    else:
+        print(json.dumps(data.get("detail"), indent=1, default=repr))
+        return 1
+    print(json.dumps([v["detail"] for v in part.violations], indent=1, default=repr))
+    return 1 if part.violations else 0
